@@ -20,11 +20,13 @@ pub fn no_child(_: &[String]) -> i32 {
 
 pub mod codec;
 pub mod okey;
+pub mod walframe;
 
 pub fn all() -> Vec<StreamDef> {
     vec![
         codec::def(),
         okey::def(),
+        walframe::def(),
     ]
 }
 
